@@ -237,6 +237,11 @@ func (ms *MultiplexerSignal) modifySignalSize(sigID EntityID, amount int) error 
 		panic(err)
 	}
 
+	// check all the groups before touching the first one
+	if err := ms.verifySignalSizeAmount(sigID, amount); err != nil {
+		return err
+	}
+
 	groupIDs := []int{}
 
 	if ms.fixedSignals.hasKey(sigID) {
